@@ -401,6 +401,29 @@ func variants(thorough bool) []variant {
 	add("replay", "whole-handshake-of-other-connection", func(e *env, b, ob, of []byte) ([]byte, uint16, string) {
 		return append([]byte(nil), of...), 0, ""
 	})
+	// the handshake recorded on the honest connection (same receiver, accepted there a moment ago),
+	// re-bound by the attacker to its own connection: identity, timestamp and signature are the
+	// recorded ones, only the binding is this connection's. The signature does not cover this
+	// binding - a receiver that remembers "this identity with this signature was fine" accepts it
+	// (seed C16-p).
+	for _, redate := range []bool{false, true} {
+		redate := redate
+		name := "recorded-handshake-rebound-to-own-connection"
+		if redate {
+			name += "-redated"
+		}
+		add("replay", name, func(e *env, b, ob, of []byte) ([]byte, uint16, string) {
+			var h comm.Handshake
+			if err := h.Read(bytes.NewReader(of)); err != nil {
+				panic(err)
+			}
+			h.TLSBinding = append([]byte(nil), b...)
+			if redate {
+				h.Timestamp = now().Unix()
+			}
+			return frame(h), 0, ""
+		})
+	}
 	// a handshake the registered key really signed - for another connection, some time ago or
 	// post-dated: however old or young it claims to be, it proves nothing about this connection
 	for _, off := range []int64{-31, -61, -3600, -86400 * 365, 31, 61, 3600, 86400 * 365} {
